@@ -291,8 +291,12 @@ Query(s, ser, fl, kind, n) ==
   LET mem == CASE kind = "owner" -> S_GetNameOwner [] kind = "has" -> S_NameHasOwner
                [] kind = "queued" -> S_ListQueuedOwners [] kind = "list" -> S_ListNames
                [] kind = "ping" -> S_Ping
+               \* who is behind a name (credentials the bus took from the socket at connection time), the bus's own
+               \* identity, and the names that service files provide
+               [] kind = "uid" -> S_GetConnectionUnixUser [] kind = "pid" -> S_GetConnectionUnixProcessID
+               [] kind = "id" -> S_GetId [] kind = "acts" -> S_ListActivatableNames
       ifc == IF kind = "ping" THEN S_org_freedesktop_DBus_Peer ELSE BUS
-      call == IF kind \in {"list", "ping"} THEN DriverCall(s, ser, ifc, mem, <<>>, <<>>, fl)
+      call == IF kind \in {"list", "ping", "id", "acts"} THEN DriverCall(s, ser, ifc, mem, <<>>, <<>>, fl)
               ELSE DriverCall(s, ser, ifc, mem, SigS, <<AStr(n)>>, fl)
       r == Resolve(queue, n)
       me == DstOf(s) IN
@@ -309,6 +313,17 @@ Query(s, ser, fl, kind, n) ==
                  ELSE Answer(s, call, Reply(me, ser, SigAS,
                                 <<AStrs(IF n \in DOMAIN queue THEN QueuedNames(queue[n]) ELSE <<n>>)>>, "exact"))
             [] kind = "list" -> Answer(s, call, Reply(me, ser, SigAS, <<AStrs(SeqOfSet(AllNames))>>, "set1"))
+            [] kind = "uid" ->
+                 IF n = BUS THEN Answer(s, call, Reply(me, ser, SigU, <<AU32(cfg.busUid)>>, "exact"))
+                 ELSE IF r = NoSlot THEN AnswerErr(s, call, E_NameHasNoOwner)
+                 ELSE Answer(s, call, Reply(me, ser, SigU, <<AU32(uid[r])>>, "exact"))
+            [] kind = "pid" ->
+                 IF n = BUS THEN Answer(s, call, Reply(me, ser, SigU, <<AU32(cfg.busPid)>>, "exact"))
+                 ELSE IF r = NoSlot THEN AnswerErr(s, call, E_NameHasNoOwner)
+                 ELSE Answer(s, call, Reply(me, ser, SigU, <<AU32(cfg.clientPid)>>, "exact"))
+            [] kind = "id" -> Answer(s, call, Reply(me, ser, SigS, <<AStr(cfg.guid)>>, "exact"))
+            [] kind = "acts" -> Answer(s, call, Reply(me, ser, SigAS,
+                                   <<AStrs(SeqOfSet({BUS} \cup {cfg.act[i].n : i \in 1..Len(cfg.act)}))>>, "set1"))
             [] kind = "ping" -> IF NoReplyFlag(call)
                                 THEN /\ out' = Capture(Now, call, s, NoSlot) \o EavesCopies(Now, s, call, NoSlot)
                                      /\ UNCHANGED <<act, fdx, cfg, cst, dying, uid, uname, everNames, queue, rules, pend, mon>>
